@@ -16,7 +16,10 @@ warnings.filterwarnings('ignore')
 from supvsim import batch, profiles  # noqa
 
 prop, seed, sig, out = sys.argv[1], int(sys.argv[2]), sys.argv[3], sys.argv[4]
-scen = dict(profiles.build(os.environ.get('BUILD_PROP', prop), seed), prop=prop)
+if os.environ.get('SCEN_FILE'):
+    scen = dict(json.load(open(os.environ['SCEN_FILE']))['scenario'], prop=prop)
+else:
+    scen = dict(profiles.build(os.environ.get('BUILD_PROP', prop), seed), prop=prop)
 res = batch.run_seed(prop, seed, 0, replay=scen)
 hits = [v for v in res['violations'] if v['signature'] == sig]
 if not hits:
